@@ -3,6 +3,7 @@
    alpide/lane_alpide_frame_analyzer.rs, alpide/alpide_readout_frame.rs,
    stats/stats_collector/its_stats/alpide_stats.rs. *)
 From FP Require Import Model.Base Model.ItsWords.
+From FP Require Gen.Facts.
 
 (* panic sites of the stave-level code *)
 Definition SITE_store_lane_no_frame := 2.     (* readout_frame.rs store_lane_data: unwrap on None *)
@@ -120,7 +121,8 @@ Definition lane_checks (ly : layer) (lane_number : N) (chip_count : option N) (c
   else
     let bcs := uniq_N [] (map snd (ls_chips s)) in
     let e9003 := Nat.ltb 1 (length bcs) in
-    if (negb e9003) && (match ls_chips s with [] => true | _ => false end) then Panic SITE_no_chip_in_lane
+    if (negb e9003) && (match ls_chips s with [] => true | _ => false end)
+    then (if Gen.Facts.lane_without_chip_is_reported then Ok (LO_errors false false false false) else Panic SITE_no_chip_in_lane)
     else
       let ids := map fst (ls_chips s) in
       let e9004 :=
